@@ -6,9 +6,9 @@ Import ListNotations.
 Open Scope string_scope.
 Import CE.
 
-(* the constructs the theorem excludes, decidably: a %plain-let whose binder and right-hand side counts differ or that
-   binds one name twice, a rest lambda without parameter (none of these can be written in the surface syntax, and
-   plain_let never produces the first and third) *)
+(* the constructs the theorem excludes, decidably: a %plain-let whose binder and right-hand side counts differ and a
+   rest lambda without parameter.  Neither can be written in the surface syntax (a let binding is a pair, the rest
+   parameter is the identifier after the dot) and no modelled pass produces them. *)
 Fixpoint nodupb (l : list string) : bool :=
   match l with [] => true | x :: r => negb (mem x r) && nodupb r end.
 
@@ -18,7 +18,7 @@ Fixpoint cwf (e : exp) : bool :=
   | Lam ps r b => (negb r || negb (Nat.eqb (List.length ps) 0)) && cwf b
   | Call f a => cwf f && cwfs a
   | If c t e' => cwf c && cwf t && cwf e'
-  | Let xs r b => Nat.eqb (List.length xs) (elen r) && nodupb xs && cwfs r && cwf b
+  | Let xs r b => Nat.eqb (List.length xs) (elen r) && cwfs r && cwf b
   | Begin es => cwfs es
   | Prim _ a => cwfs a
   | SetG _ e' => cwf e'
@@ -128,7 +128,9 @@ Lemma cvisit_Loc c x :
 Proof. reflexivity. Qed.
 Lemma cvisit_Begin c es : cvisit all_on c (Begin es) = let '(es', u, ch) := cvisits all_on c es in (Begin es', u, ch).
 Proof. reflexivity. Qed.
-Lemma cvisit_Prim c op a : cvisit all_on c (Prim op a) = let '(a', u, ch) := cvisits all_on c a in (Prim op a', u, ch).
+Lemma cvisit_Prim c op a : cvisit all_on c (Prim op a) =
+  let '(a', u, ch) := cvisits all_on c a in
+  match fold_prim c op (elist a') with Some e1 => (e1, u, true) | None => (Prim op a', u, ch) end.
 Proof. reflexivity. Qed.
 Lemma cvisit_SetG c x e : cvisit all_on c (SetG x e) = let '(e', u, ch) := cvisit all_on c e in (SetG x e', (cmark c x ++ u)%list, ch).
 Proof. reflexivity. Qed.
@@ -392,13 +394,22 @@ Proof.
         apply in_notin; [|exact Hn]. apply Hub; [exact Hx|]. unfold c'. rewrite cget_binds_skip by exact Hn. exact Hg.
 Qed.
 
-Lemma keep_ok_intro c fb (f : string * exp -> bool) : forall xs rl, List.length xs = List.length rl ->
-  (forall x e, In (x, e) (combine xs rl) -> f (x, e) = false -> isncb c e = false /\ ~ In x fb) ->
-  keep_ok c fb (map f (combine xs rl)) xs rl.
+(* a dropped binding: its right-hand side is a constant and the body visit never read its variable; then the variable
+   is not free in the visited body, unless a later binder of the same let has its name *)
+Lemma keep_ok_intro c fb u2 : forall xs rl c0, List.length xs = List.length rl ->
+  (forall x, In x fb -> cget (rev (zipb c xs rl) ++ c0)%list x <> None -> In x u2) ->
+  keep_ok c fb (let_keep c u2 xs rl) xs rl.
 Proof.
-  induction xs as [|x xs IH]; intros [|e rl] L H; cbn [List.length] in L; try discriminate; cbn [combine map keep_ok]; [exact I|].
-  split; [intros Hf; apply H; [left; reflexivity|exact Hf]|].
-  apply IH; [lia|]. intros x0 e0 Hin. apply H. right; exact Hin.
+  unfold let_keep. induction xs as [|x xs IH]; intros [|e rl] c0 L H; cbn [List.length] in L; try discriminate;
+    cbn [combine map keep_ok]; [exact I|].
+  cbn [zipb rev] in H. rewrite <- app_assoc in H. cbn [app] in H.
+  split; [|eapply (IH rl (bind_of c x e :: c0)); [lia|exact H]].
+  cbn [fst snd]. intros Hf. apply orb_false_iff in Hf. destruct Hf as [Hm Hc]. split; [exact Hc|].
+  destruct (in_dec string_dec x xs) as [Hi|Hi]; [right; exact Hi|left]. intros Hfb.
+  assert (Hu : In x u2).
+  { apply H; [exact Hfb|]. rewrite cget_zipb_skip by (intros Hq; apply in_combine_fst in Hq; contradiction).
+    unfold bind_of. rewrite cget_cons, String.eqb_refl. unfold isncb in Hc. destruct (fst (to_const c e)); [discriminate|discriminate]. }
+  apply mem_In in Hu. congruence.
 Qed.
 
 Lemma let_keep_F2 c u2 : forall xs rl, List.length xs = List.length rl ->
@@ -410,7 +421,7 @@ Proof.
 Qed.
 
 Lemma let_post_ce c xs rhs rhs' b b' u1 u2 :
-  List.length xs = elen rhs' -> NoDup xs ->
+  List.length xs = elen rhs' ->
   (nms rhs' -> ces c rhs rhs' /\ useds c rhs' u1) ->
   (nm b' -> ce (rev (zipb c xs (elist rhs')) ++ c)%list b b' /\ used (rev (zipb c xs (elist rhs')) ++ c)%list b' u2) ->
   forall e', e' = (if existsb (fun k => k) (let_keep c u2 xs (elist rhs'))
@@ -421,7 +432,7 @@ Lemma let_post_ce c xs rhs rhs' b b' u1 u2 :
   used c e' (u1 ++ flat_map (fun e0 => snd (to_const c e0)) (elist rhs') ++ notin xs u2)%list.
 Proof.
   set (rl := elist rhs'). set (c' := (rev (zipb c xs rl) ++ c)%list). set (keep := let_keep c u2 xs rl).
-  intros L ND Hops Hbody e' -> Hnm. rewrite elen_length in L. fold rl in L.
+  intros L Hops Hbody e' -> Hnm. rewrite elen_length in L. fold rl in L.
   assert (K1 : Forall2 (fun (k : bool) e => k = false -> isncb c e = false) keep rl).
   { apply let_keep_F2. exact L. }
   assert (Hboth : nms rhs' /\ nm b').
@@ -431,12 +442,7 @@ Proof.
     - split; [|exact Hnm]. apply (nms_of_consts c keep); [exact K1|]. fold rl. rewrite (select_none _ _ Ex). reflexivity. }
   destruct Hboth as [Hna Hnb]. destruct (Hops Hna) as [Ha Hua]. destruct (Hbody Hnb) as [Hb Hub].
   assert (HK : keep_ok c (fv b') keep xs rl).
-  { unfold keep, let_keep. apply keep_ok_intro; [exact L|]. intros x e Hin Hf. cbn [fst snd] in Hf.
-    apply orb_false_iff in Hf. destruct Hf as [Hm Hc]. split; [exact Hc|]. intros Hfv.
-    assert (Hu : In x u2).
-    { apply Hub; [exact Hfv|]. unfold c'. rewrite (cget_zipb_nodup c xs rl c x e ND Hin).
-      unfold isncb in Hc. destruct (fst (to_const c e)); [discriminate|discriminate]. }
-    apply mem_In in Hu. congruence. }
+  { unfold keep. apply (keep_ok_intro c (fv b') u2 xs rl c L). intros x Hx Hg. apply Hub; assumption. }
   assert (Hskip : forall x, In x (fv b') -> ~ In x xs -> cget c x <> None -> In x (notin xs u2)).
   { intros x Hx Hn Hg. apply in_notin; [|exact Hn]. apply Hub; [exact Hx|]. unfold c'.
     rewrite cget_zipb_skip by (intros Hi; apply in_combine_fst in Hi; contradiction). exact Hg. }
@@ -556,15 +562,22 @@ Proof.
     destruct He' as [He' ->].
     eapply let_post_ce; try eassumption.
     + rewrite Hlen. apply Nat.eqb_eq. assumption.
-    + apply nodupb_NoDup. assumption.
     + intros Hna. eapply IHr; eassumption.
     + intros Hnb. eapply IHb; eassumption.
   - (* Begin *) intros es IH. split; [|discriminate]. intros c e' u ch W V Hnm. rewrite cvisit_Begin in V. cbn [cwf] in W.
     destruct (cvisits all_on c es) as [[es' u1] c1] eqn:Ve. inversion V; subst.
     destruct (IH _ _ _ _ W Ve Hnm) as [H1 H2]. split; [constructor; exact H1|exact H2].
   - (* Prim *) intros op a IH. split; [|discriminate]. intros c e' u ch W V Hnm. rewrite cvisit_Prim in V. cbn [cwf] in W.
-    destruct (cvisits all_on c a) as [[es' u1] c1] eqn:Ve. inversion V; subst.
-    destruct (IH _ _ _ _ W Ve Hnm) as [H1 H2]. split; [constructor; exact H1|exact H2].
+    destruct (cvisits all_on c a) as [[es' u1] c1] eqn:Ve.
+    destruct (fold_prim c op (elist es')) as [e1|] eqn:Hf; inversion V; subst.
+    + (* folded: the operands are constants *)
+      destruct (fold_prim_spec _ _ _ _ Hf) as (e1' & e2' & x & y & -> & Hal & H1 & H2 & ->).
+      assert (Hna : nms es').
+      { unfold nms, has_markers. rewrite gvss_gvl, Hal. cbn [gvl].
+        rewrite (const_gvs' c e1' _ H1), (const_gvs' c e2' _ H2). reflexivity. }
+      destruct (IH _ _ _ _ W Ve Hna) as [Ha _].
+      split; [eapply CE_Fold; eassumption|intros z []].
+    + destruct (IH _ _ _ _ W Ve Hnm) as [H1 H2]. split; [constructor; exact H1|exact H2].
   - (* SetG *) intros g e [IH _]. split; [|discriminate]. intros c e' u ch W V Hnm. rewrite cvisit_SetG in V. cbn [cwf] in W.
     destruct (cvisit all_on c e) as [[e1 u1] c1] eqn:Ve. inversion V; subst.
     assert (Hn1 : nm e1).
@@ -673,12 +686,14 @@ Proof.
     cbn [fst cwf]. rewrite IHb, andb_true_r.
     match goal with H : Nat.eqb _ _ = true |- _ => apply Nat.eqb_eq in H; rename H into L end.
     rewrite cwfs_cwfl, elist_of_list, cwfl_select by (rewrite <- cwfs_cwfl; exact Wr).
-    rewrite nodupb_select by assumption. rewrite !andb_true_r. apply Nat.eqb_eq.
+    rewrite !andb_true_r. apply Nat.eqb_eq.
     rewrite elen_length, elist_of_list. apply select_len. rewrite <- elen_length. congruence.
   - intros es IH. split; [|discriminate]. intros c W. rewrite cvisit_Begin. cbn [cwf] in W. destruct (IH c W) as [H _].
     destruct (cvisits all_on c es) as [[es' u1] c1]. exact H.
   - intros op a IH. split; [|discriminate]. intros c W. rewrite cvisit_Prim. cbn [cwf] in W. destruct (IH c W) as [H _].
-    destruct (cvisits all_on c a) as [[es' u1] c1]. exact H.
+    destruct (cvisits all_on c a) as [[es' u1] c1]. cbn [fst] in H.
+    destruct (fold_prim c op (elist es')) as [e1|] eqn:Hf; [|exact H].
+    destruct (fold_prim_spec _ _ _ _ Hf) as (? & ? & ? & ? & _ & _ & _ & _ & ->). reflexivity.
   - intros g e [IH _]. split; [|discriminate]. intros c W. rewrite cvisit_SetG. cbn [cwf] in W. specialize (IH c W).
     destruct (cvisit all_on c e) as [[e1 u1] c1]. exact IH.
   - intros c _. split; reflexivity.
@@ -830,10 +845,15 @@ Definition nv_ce1 : exp :=  (* ((lambda (a b . r) (if a (begin (display b) r) 0)
        (ECons (Quote (DCons (DNum 1) DNil)) (ECons (Begin (two (Prim PDisplay (one (Num 2))) (Num 3))) (two (Num 4) (Num 5)))).
 Definition nv_ce2 : exp :=  (* ((lambda (a b) a) '(1 2) (display 1)) *)
   w_f27.
+Definition nv_ce3 : exp :=  (* ((lambda (a) (display (#%prim.+ a ((lambda (b) b) 2)))) 40) *)
+  Call (Lam ["a"] false (Prim PDisplay (one (Prim PAddC (two (Loc "a") (Call (Lam ["b"] false (Loc "b")) (one (Num 2))))))))
+       (one (Num 40)).
 Lemma consteval_nonvacuous :
   cwf nv_ce1 = true /\ ceval_ok nv_ce1 = true /\ ceval all_on nv_ce1 <> nv_ce1 /\
   run nv_ce1 = "OK (4 . (5 . ())) OUT 2 3" /\ run (ceval all_on nv_ce1) = "OK (4 . (5 . ())) OUT 2 3" /\
   cwf nv_ce2 = true /\ ceval_ok nv_ce2 = true /\ ceval all_on nv_ce2 <> nv_ce2 /\
-  run (ceval all_on nv_ce2) = "OK (1 . (2 . ())) OUT 1".
+  run (ceval all_on nv_ce2) = "OK (1 . (2 . ())) OUT 1" /\
+  cwf nv_ce3 = true /\ ceval_ok nv_ce3 = true /\ ceval all_on nv_ce3 = Prim PDisplay (one (Num 42)) /\
+  run nv_ce3 = "OK #<void> OUT 42".
 Proof. vm_compute. repeat split; try reflexivity; discriminate. Qed.
 
